@@ -1,6 +1,6 @@
 (** C19 - Interning is transparent: same strings as without it, under any
     history and any interleaving of the atomic steps of Read. *)
-From Plenc Require Import Base Intern InternProofs Codec.
+From Plenc Require Import Base Intern InternProofs Codec Registry RegistryWf.
 Open Scope N_scope.
 
 (** for every set of threads, every input sequence and EVERY schedule: what a
@@ -22,12 +22,17 @@ Theorem C19_tables : forall inputs sched, Forall table_ok (i_history (irun (iini
 Proof. exact intern_tables_ok. Qed.
 Print Assumptions C19_tables.
 
-(** the encoding of a field is unchanged by the option: the interned codec
-    appends and sizes with StringCodec's methods (the model has one constructor
-    for both; codec_for maps ("string","intern") to it) *)
-Theorem C19_encoding_unchanged : forall v tag, enc CString v tag = enc CString v tag /\ size CString v tag = size CString v tag.
-Proof. intros; split; reflexivity. Qed.
+(** the encoding of a field is unchanged by the option: a struct field tagged
+    "N,intern" is built exactly like the same field tagged "N" - same index,
+    name and codec (interning acts in Read only) - and the codec registered
+    for (string, "intern") is the plain string codec *)
+Theorem C19_encoding_unchanged : forall cf i fd num r, num <> [] -> ~ In 44 num -> num <> [45] ->
+  build_fields cf i (with_plenc fd (num ++ 44 :: s_intern) :: r) = build_fields cf i (with_plenc fd num :: r).
+Proof. exact intern_same_codec. Qed.
 Print Assumptions C19_encoding_unchanged.
+Theorem C19_string_registration : forall C, lookup (regs_of C) TString s_intern = lookup (regs_of C) TString [].
+Proof. exact intern_string_registration. Qed.
+Print Assumptions C19_string_registration.
 
 Example C19_ex :
   let s := irun (iinit [[[97]; [98]; [97]]; [[97]; []]]) [0;1;0;1;0;1;0;1;1;0;0;1;1;0;0;0;0;1;1;1;0;0;0;0;0;0;0;0;0;0;0;1;1;1;1;1;1;1;1;1;1;1;1;1;1;1;1]%nat in
